@@ -241,6 +241,64 @@ def run(F, R):
                 "TypeRef::is_subtype(super=%s.., sub=%s..) takes the arm %s where %s is required: interface-implementation checking (field types covariant, argument "
                 "types invariant up to this helper) accepts or rejects the wrong schemas" % (a, b_, got, want))
 
+    R.rule("R33.7", "kind predicates match their subject: wherever a check looks up the type of a field *argument* (a key derived from an `arguments` collection) "
+                    "it applies Type::is_input_type, never is_output_type; and an additional argument of an implementing field is 'required' only if it is "
+                    "non-null AND has no default value (both tests guard the error)")
+    n7 = 0
+    for x in F.find(CHK + r"::\{impl#\d+\}::check_\w+$", kind="fn"):
+        for c in x.calls():
+            if not (c.callee and re.search(r"dynamic::(r#)?type::\{impl#\d+\}::is_(input|output)_type$", c.callee)):
+                continue
+            # subject: the `types.get(key)` the receiver comes from
+            o, passed = trace(x, c.args[0])
+            gets = [p for p in passed if p.callee and re.search(r"(map|indexmap)::.*::get$", p.callee)]
+            from_args = False
+            for g in gets:
+                ko, kp = trace(x, g.args[1]) if len(g.args) > 1 else ([], [])
+                for k_, c_ in list(ko):
+                    if k_ == "call" and c_.callee and c_.callee.endswith("::type_name") and c_.args:
+                        o3, p3 = trace(x, c_.args[0])
+                        ko = ko + o3
+                        kp = kp + p3
+                if any(k == "field" and ".arguments" in f for k, f in ko):
+                    from_args = True
+                for k_, c_ in list(ko):
+                    if k_ == "call" and c_.callee and re.search(r"::(values|iter|keys|values_mut|iter_mut)$", c_.callee) and c_.args:
+                        if any(k == "field" and ".arguments" in f for k, f in trace(x, c_.args[0])[0]) or \
+                                (c_.args[0][0] in ("c", "m") and ".arguments" in c_.args[0][1]):
+                            from_args = True
+                # iteration variables: follow the iterator the key's root came from
+                for p2 in kp:
+                    if p2.callee and p2.callee.endswith("::next") and p2.args:
+                        io, _ = trace(x, p2.args[0])
+                        if any(k == "field" and ".arguments" in f for k, f in io):
+                            from_args = True
+            if not from_args:
+                continue
+            n7 += 1
+            R.check(c.callee.endswith("is_input_type"), "R33.7", "argument-type-kind:%s#%d" % (x.name, n7), c.where(), "argument types tested with is_input_type",
+                    "%s tests an argument's type with is_output_type: input-object arguments are rejected and object/interface/union arguments are accepted" % x.name)
+    R.floor("R33.7", "kind tests on argument types", n7, 2)
+    errs = [a for a in find_aggs(civ, r"core::result::Result$") if a[1][3] == "Err"]
+    strs_at = {}
+    nulls = [c for c in civ.calls() if c.callee and c.callee.endswith("type_ref::{impl#1}::is_nullable") or (c.callee or "").endswith("::is_nullable")]
+    nones = [c for c in civ.calls() if c.callee and re.search(r"option::\{impl#\d+\}::is_none$", c.callee) and any(k == "field" and ".default_value" in f for k, f in trace(civ, c.args[0])[0])]
+    impl_args_calls = [c for c in civ.calls() if (c.declared or "").endswith("BaseField::arguments")]
+    ok7 = False
+    if impl_args_calls and nones:
+        after = civ.reachable_after(impl_args_calls[0].bb)
+        for (ebb, r_, line) in errs:
+            if ebb not in after:
+                continue
+            # the first Err after the enumeration of the implementing field's own arguments
+            guards_null = any(civ.dominates(c.bb, ebb) for c in nulls if c.bb in after)
+            guards_default = any(civ.dominates(c.bb, ebb) for c in nones)
+            if guards_null and guards_default:
+                ok7 = True
+    R.check(ok7, "R33.7", "additional-argument:required-means-non-null-and-no-default", civ.where(), "error guarded by is_nullable and default_value.is_none()",
+            "the 'additional argument must not be required' error is not guarded by a test of default_value: a non-null additional argument with a default (optional by "
+            "the specification) makes a valid schema fail to build")
+
 
 def _strs(o):
     if isinstance(o, str):
